@@ -12,6 +12,7 @@ use std::{
 use serde_json::{json, Value};
 
 mod c17cmd;
+mod c14cmd;
 mod evalcmd;
 mod fmtcmd;
 mod parsecmd;
@@ -97,6 +98,7 @@ fn main() {
 		"textall" => run_lines(c17cmd::textall),
 		"errjs" => run_lines(c17cmd::errjs),
 		"lazy" => run_lines(lazycmd::handle),
+		"c14" => run_lines(c14cmd::handle),
 		"version" => println!("jrharness 1"),
 		_ => {
 			eprintln!("usage: jrharness <eval|...>");
